@@ -51,6 +51,7 @@ type parsed struct {
 	ambiguous bool // readable only leniently: strict RFC 7233 grammar rejects it (or a recipient may reasonably do so)
 
 	whitespace, emptyElem, plusSign, overflow, reversed bool
+	listOWS bool // SP / HTAB next to a comma (allowed by the list grammar)
 }
 
 var numRE = regexp.MustCompile(`^\+?[0-9]+$`)
@@ -98,10 +99,20 @@ func parseRange(h string) *parsed {
 	if p.unit != "bytes" {
 		p.ambiguous = true // letter case / blanks around the unit
 	}
-	if strings.IndexFunc(rest, isSpaceRune) >= 0 {
-		p.whitespace, p.ambiguous = true, true
-	}
-	for _, el := range strings.Split(rest, ",") {
+	for idx, raw := range strings.Split(rest, ",") {
+		// RFC 7230 §7 (#rule): optional SP / HTAB is allowed before a comma and
+		// after one. Such list white space is plain RFC 7233 syntax. Blanks after
+		// the "=", inside a member, or other space characters are lenient-only.
+		el := strings.Trim(raw, " \t")
+		if el != raw {
+			p.listOWS = true
+			if idx == 0 && strings.TrimLeft(raw, " \t") != raw {
+				p.whitespace, p.ambiguous = true, true // between "=" and the first member
+			}
+		}
+		if strings.IndexFunc(el, isSpaceRune) >= 0 {
+			p.whitespace, p.ambiguous = true, true
+		}
 		el = strings.TrimSpace(el)
 		if el == "" {
 			p.emptyElem, p.ambiguous = true, true
@@ -223,6 +234,8 @@ func (p *parsed) syntaxShape() string {
 		return "malformed"
 	case p.overflow:
 		return "number-beyond-int64"
+	case p.listOWS && !p.whitespace:
+		return "list-whitespace"
 	}
 	for _, s := range p.specs {
 		if s.Kind == kindSuffix {
